@@ -151,17 +151,18 @@ class BasicBlockNode:
         This mode means that after each yield, the function will automatically skip all instructions
         added by the instrumentation until the next instruction that was supposed to be yielded.
 
+        The yielded index is the position of the instruction in the basic block, i.e., it also
+        counts the pseudo-instructions (``TryBegin``, ``TryEnd``, ``SetLineno``) that precede it,
+        so that it can be used to insert instructions into the basic block.
+
         Returns:
             An iterable of tuples containing the index of the instructions and the instructions
         """
         instr_index = 0
         while instr_index < len(self._basic_block):
-            instr = self.try_get_instruction(instr_index)
+            instr = self._basic_block[instr_index]
 
-            if instr is None:
-                break
-
-            if isinstance(instr, ArtificialInstr):
+            if not isinstance(instr, Instr) or isinstance(instr, ArtificialInstr):
                 instr_index += 1
                 continue
 
@@ -169,7 +170,8 @@ class BasicBlockNode:
 
             # Update the instr_index to retarget at the original instruction
             while (
-                isinstance(new_instr := self._get_instruction(instr_index), ArtificialInstr)
+                not isinstance(new_instr := self._basic_block[instr_index], Instr)
+                or isinstance(new_instr, ArtificialInstr)
                 or new_instr != instr
             ):
                 instr_index += 1
@@ -180,16 +182,37 @@ class BasicBlockNode:
         """Find an index and instruction by its original index.
 
         Args:
-            original_index: The index of the instruction
+            original_index: The index of the instruction among the original instructions
 
         Returns:
-            The index of the instruction in the basic block and the instruction itself
+            The index of the instruction in the basic block (counting pseudo-instructions
+            such as ``TryEnd``, so that it can be used to insert instructions into the basic
+            block) and the instruction itself
         """
         return tuple(
             (instr_index, instr)
-            for instr_index, instr in enumerate(self.instructions)
-            if not isinstance(instr, ArtificialInstr)
+            for instr_index, instr in enumerate(self._basic_block)
+            if isinstance(instr, Instr) and not isinstance(instr, ArtificialInstr)
         )[original_index]
+
+    def position_of(self, instruction: Instr) -> int:
+        """Get the position of an instruction in the basic block.
+
+        In contrast to the indices accepted by `try_get_instruction`, the position also counts
+        the pseudo-instructions (``TryBegin``, ``TryEnd``, ``SetLineno``) of the basic block, so
+        that it can be used to insert instructions into the basic block.
+
+        Args:
+            instruction: The instruction, which must be part of the basic block
+
+        Returns:
+            The position of the instruction in the basic block
+        """
+        return next(
+            position
+            for position, instr in enumerate(self._basic_block)
+            if instr is instruction
+        )
 
     def __eq__(self, other: object) -> bool:
         if not isinstance(other, BasicBlockNode):
